@@ -7,6 +7,8 @@ use mc_core::{self as mc, json, Job, Value};
 use smartcore::linalg::naive::dense_matrix::DenseMatrix;
 use smartcore::linalg::BaseMatrix;
 use smartcore::linear::logistic_regression::{LogisticRegression, LogisticRegressionParameters};
+use smartcore::verif_hooks::{Backtracking, FirstOrderOptimizer, FunctionOrder, LBFGS};
+use std::cell::RefCell;
 
 pub const SIGMA4: [f64; 4] = [0.0, 1.0, -1.0, 2.0];
 pub const LATTICE2: [[f64; 2]; 4] = [[0.0, 0.0], [1.0, 0.0], [0.0, 1.0], [1.0, 1.0]];
@@ -81,6 +83,22 @@ fn combos(maps: &[usize], alphas: &[usize], ugly: bool) -> Vec<(usize, usize, bo
     v
 }
 
+fn sat_maps(t: bool) -> &'static [usize] {
+    if t {
+        &SAT_MAPS_THOROUGH
+    } else {
+        &SAT_MAPS_QUICK
+    }
+}
+
+fn sat_struct_n(t: bool) -> &'static [usize] {
+    if t {
+        &[12, 25, 50, 100]
+    } else {
+        &[12, 25]
+    }
+}
+
 fn blocks(t: bool) -> Vec<Block> {
     let (am, aa) = ([0usize, 1, 2], [0usize, 1, 2, 3]);
     let std = |maps: &[usize], alphas: &[usize]| -> Vec<(usize, usize, bool)> {
@@ -102,8 +120,16 @@ fn blocks(t: bool) -> Vec<Block> {
         Block { kind: "multiset", p: 1, kl: 2, n: 6, nx: 4, combos: combos(&[3], &aa, false), sat: false },
         Block { kind: "multiset", p: 2, kl: 2, n: 6, nx: 4, combos: combos(&[3], &[0, 2], false), sat: false },
         Block { kind: "multiset", p: 1, kl: 3, n: 6, nx: 4, combos: combos(&[3], &[0, 2], false), sat: false },
+        // round 2: saturated scores (two classes, scale 100, no / large offsets, alpha > 0)
+        Block { kind: "multiset", p: 1, kl: 2, n: 6, nx: 4, combos: combos(sat_maps(t), &SAT_ALPHAS, false), sat: true },
+        Block { kind: "multiset", p: 2, kl: 2, n: 6, nx: 4, combos: combos(sat_maps(t), &SAT_ALPHAS, false), sat: true },
     ];
     if t {
+        v.push(Block { kind: "multiset", p: 1, kl: 2, n: 6, nx: 4, combos: combos(sat_maps(t), &SAT_ALPHAS, true), sat: true });
+        v.push(Block { kind: "multiset", p: 2, kl: 2, n: 6, nx: 4, combos: combos(sat_maps(t), &SAT_ALPHAS, true), sat: true });
+        v.push(Block { kind: "multiset", p: 1, kl: 2, n: 8, nx: 4, combos: combos(sat_maps(t), &SAT_ALPHAS, false), sat: true });
+        v.push(Block { kind: "multiset", p: 2, kl: 2, n: 8, nx: 4, combos: combos(sat_maps(t), &SAT_ALPHAS, false), sat: true });
+        v.push(Block { kind: "sequence", p: 1, kl: 2, n: 6, nx: 4, combos: combos(&SAT_MAPS_QUICK, &SAT_ALPHAS, false), sat: true });
         v.push(Block { kind: "multiset", p: 1, kl: 4, n: 6, nx: 4, combos: std(&am, &aa), sat: false });
         v.push(Block { kind: "multiset", p: 2, kl: 4, n: 6, nx: 4, combos: combos(&[0, 2], &aa, false), sat: false });
         v.push(Block { kind: "multiset", p: 1, kl: 2, n: 8, nx: 4, combos: std(&am, &aa), sat: false });
@@ -135,8 +161,8 @@ impl Block {
         for &(m, a, ugly) in &self.combos {
             for &first in &firsts {
                 out.push(Job::new(
-                    format!("{}-p{}-k{}-n{}-nx{}-map{}-alpha{}-{}-first{}", self.kind, self.p, self.kl, self.n, self.nx, m, ALPHAS[a], if ugly { "ugly" } else { "plain" }, if first == NO_FIRST { "any".to_string() } else { first.to_string() }),
-                    json!({"kind": self.kind, "p": self.p, "kl": self.kl, "n": self.n, "nx": self.nx, "map": m, "alpha": a, "ugly": ugly, "first": first, "seed": seed}),
+                    format!("{}{}-p{}-k{}-n{}-nx{}-map{}-alpha{}-{}-first{}", if self.sat { "saturated-" } else { "" }, self.kind, self.p, self.kl, self.n, self.nx, m, ALPHAS[a], if ugly { "ugly" } else { "plain" }, if first == NO_FIRST { "any".to_string() } else { first.to_string() }),
+                    json!({"kind": self.kind, "p": self.p, "kl": self.kl, "n": self.n, "nx": self.nx, "map": m, "alpha": a, "ugly": ugly, "first": first, "seed": seed, "sat": self.sat}),
                 ));
             }
         }
@@ -158,6 +184,13 @@ pub fn plan(t: bool, seed: u64, jobs: &mut Vec<Job>) {
                 for (li, l) in LAYOUTS.iter().enumerate() {
                     jobs.push(Job::new(format!("structured-n{}-p{}-k{}-{}", n, p, k, l), json!({"kind": "structured", "n": n, "p": p, "k": k, "layout": li, "seed": seed})));
                 }
+            }
+        }
+    }
+    for &n in sat_struct_n(t) {
+        for p in 1..=6usize {
+            for (li, l) in LAYOUTS.iter().enumerate() {
+                jobs.push(Job::new(format!("saturated-structured-n{}-p{}-k2-{}", n, p, l), json!({"kind": "structured", "n": n, "p": p, "k": 2, "layout": li, "seed": seed, "sat": true, "thorough": t})));
             }
         }
     }
@@ -278,19 +311,29 @@ pub fn run(job: &Job) {
                 alpha: ALPHAS[job.u("alpha")],
                 ugly,
                 shift,
-                family: if multiset { "multiset" } else { "sequence" },
+                family: match (job.b("sat"), multiset) {
+                    (false, true) => "multiset",
+                    (false, false) => "sequence",
+                    (true, true) => "saturated-multiset",
+                    (true, false) => "saturated-sequence",
+                },
             };
             fit_case(&c);
         }
         "structured" => {
             let (n, p, k, layout) = (job.u("n"), job.u("p"), job.u("k"), job.u("layout"));
-            let map = MAPS[mc::choose(MAPS.len())];
-            let alpha = ALPHAS[mc::choose(ALPHAS.len())];
+            let sat = job.b("sat");
+            let (map, alpha) = if sat {
+                let sm = sat_maps(job.b("thorough"));
+                (MAPS[sm[mc::choose(sm.len())]], ALPHAS[SAT_ALPHAS[mc::choose(SAT_ALPHAS.len())]])
+            } else {
+                (MAPS[mc::choose(N_STRUCT_MAPS)], ALPHAS[mc::choose(ALPHAS.len())])
+            };
             let ugly = mc::choose(2) == 1;
             let (raw, letters) = structured_data(n, p, k, layout);
             let queries_raw: Vec<Vec<f64>> = raw.iter().map(|r| r.iter().map(|v| -v - 0.5).collect()).collect();
             mc::count("structured_fit");
-            fit_case(&Case { raw, letters, queries_raw, map, alpha, ugly, shift, family: "structured" });
+            fit_case(&Case { raw, letters, queries_raw, map, alpha, ugly, shift, family: if sat { "saturated-structured" } else { "structured" } });
         }
         _ => unreachable!(),
     }
@@ -316,6 +359,102 @@ struct Judged {
 
 fn apply_map(raw: &[Vec<f64>], shift: f64, map: (f64, f64)) -> Vec<Vec<f64>> {
     raw.iter().map(|r| r.iter().map(|v| map.0 * (v + shift) + map.1).collect()).collect()
+}
+
+fn overlapping_rows(x: &[Vec<f64>], yi: &[usize]) -> bool {
+    (0..x.len()).any(|i| (0..i).any(|j| x[i] == x[j] && yi[i] != yi[j]))
+}
+
+/// Largest |linear score| over all training rows and over the MISCLASSIFIED ones (score sign
+/// against the label; class index `pos` plays "1") at the two-class parameters `w` = [w.., b].
+fn score_extremes(x: &[Vec<f64>], yi: &[usize], pos: usize, w: &[f64]) -> (f64, f64) {
+    let p = w.len() - 1;
+    let (mut any, mut mis) = (0.0f64, 0.0f64);
+    for (row, &c) in x.iter().zip(yi) {
+        let s: f64 = row.iter().zip(w).map(|(a, b)| a * b).sum::<f64>() + w[p];
+        any = any.max(s.abs());
+        if (c == pos && s < 0.0) || (c != pos && s > 0.0) {
+            mis = mis.max(s.abs());
+        }
+    }
+    (any, mis)
+}
+
+/// Saturation diagnostics of one two-class fit (non-vacuity only — no verdict depends on them).
+#[derive(Default, Clone, Debug)]
+struct SatDiag {
+    /// at the parameters the library returned
+    any_at_result: f64,
+    mis_at_result: f64,
+    /// reference run: the real LBFGS + Backtracking(THIRD) (verif-hooks re-export; the optimiser
+    /// and configuration `fit` uses) driven from zero on the harness's own objective (refs.rs) —
+    /// the points it evaluates are the points `fit` evaluates up to the 3e-7 discontinuity of the
+    /// library's ln_1pe
+    first_search_trials: usize,
+    mis_on_first_search: f64,
+    any_at_first_accepted: f64,
+    any_at_accepted: f64,
+    mis_at_accepted: f64,
+    mis_at_trial: f64,
+    accepted: usize,
+    panicked: bool,
+}
+
+fn saturation_diagnostics(x: &[Vec<f64>], yi: &[usize], pos: usize, alpha: f64, libw: &[f64]) -> SatDiag {
+    let p = libw.len() - 1;
+    let mut d = SatDiag::default();
+    let (a, m) = score_extremes(x, yi, pos, libw);
+    d.any_at_result = a;
+    d.mis_at_result = m;
+    // event log of the reference run: (is_df, point)
+    let log: RefCell<Vec<(bool, Vec<f64>)>> = RefCell::new(Vec::new());
+    let row = |m: &DenseMatrix<f64>| -> Vec<f64> { (0..=p).map(|j| m.get(0, j)).collect() };
+    let f = |w: &DenseMatrix<f64>| -> f64 {
+        let wv = row(w);
+        let v = refs::binary_obj_grad(x, yi, pos, &wv, alpha).0;
+        log.borrow_mut().push((false, wv));
+        v
+    };
+    let df = |g: &mut DenseMatrix<f64>, w: &DenseMatrix<f64>| {
+        let wv = row(w);
+        let gv = refs::binary_obj_grad(x, yi, pos, &wv, alpha).1;
+        for j in 0..=p {
+            g.set(0, j, gv[j]);
+        }
+        log.borrow_mut().push((true, wv));
+    };
+    let x0 = DenseMatrix::from_2d_vec(&vec![vec![0.0; p + 1]]);
+    let ls: Backtracking<f64> = Backtracking { order: FunctionOrder::THIRD, ..Default::default() };
+    let opt: LBFGS<f64> = Default::default();
+    d.panicked = mc::guard(|| opt.optimize(&f, &df, &x0, &ls)).is_err();
+    let zero = vec![0.0; p + 1];
+    let mut last_df: Vec<f64> = Vec::new();
+    for (is_df, w) in log.borrow().iter() {
+        let (a, m) = score_extremes(x, yi, pos, w);
+        if *is_df {
+            if *w != last_df {
+                last_df = w.clone();
+                if *w != zero {
+                    d.accepted += 1;
+                    if d.accepted == 1 {
+                        d.any_at_first_accepted = a;
+                    }
+                    d.any_at_accepted = d.any_at_accepted.max(a);
+                    d.mis_at_accepted = d.mis_at_accepted.max(m);
+                }
+            }
+        } else {
+            d.mis_at_trial = d.mis_at_trial.max(m);
+            if d.accepted == 0 {
+                // points of the first line search (from zero along -grad), the accepted one included
+                if *w != zero {
+                    d.first_search_trials += 1;
+                }
+                d.mis_on_first_search = d.mis_on_first_search.max(m);
+            }
+        }
+    }
+    d
 }
 
 pub fn fit_case(c: &Case) {
@@ -513,6 +652,48 @@ pub fn fit_case(c: &Case) {
         mc::violation(s.clone(), w.clone());
     }
 
+    // ---- round 2: saturation diagnostics of the saturated-scores family (non-vacuity only)
+    let sat: Option<SatDiag> = if c.family.starts_with("saturated") && k == 2 { Some(saturation_diagnostics(&x, &yi, ps[used][1], c.alpha, &libw[0])) } else { None };
+    if let Some(d) = &sat {
+        mc::count("saturated_family_fit");
+        if d.mis_at_result > SATURATION || d.mis_on_first_search > SATURATION {
+            mc::count("saturated_misclassified_|score|>40(at the result or on the way to the first accepted iterate)");
+        }
+        if d.mis_at_result > SATURATION {
+            mc::count("saturated_misclassified_|score|>40_at_result");
+        }
+        if d.any_at_result > SATURATION {
+            mc::count("saturated_some_|score|>40_at_result");
+        }
+        if d.any_at_result > 15.0 {
+            mc::count("saturated_some_|score|>15_at_result(ln_1pe switch)");
+        }
+        if d.mis_at_result > 15.0 {
+            mc::count("saturated_misclassified_|score|>15_at_result(ln_1pe switch)");
+        }
+        if d.any_at_first_accepted > SATURATION {
+            mc::count("saturated_some_|score|>40_at_first_accepted_iterate(reference run)");
+        }
+        if d.any_at_accepted > SATURATION {
+            mc::count("saturated_some_|score|>40_at_an_accepted_iterate(reference run)");
+        }
+        if d.mis_at_accepted > 15.0 {
+            mc::count("saturated_misclassified_|score|>15_at_an_accepted_iterate(reference run)");
+        }
+        if d.mis_at_accepted > SATURATION {
+            mc::count("saturated_misclassified_|score|>40_at_an_accepted_iterate(reference run)");
+        }
+        if d.first_search_trials >= 3 {
+            mc::count("saturated_first_line_search_backtracked_twice_or_more(reference run)");
+        }
+        if d.panicked {
+            mc::count("saturated_reference_run_panicked");
+        }
+        if overlapping_rows(&x, &yi) {
+            mc::count("saturated_overlapping(same x, different labels)");
+        }
+    }
+
     // ---- counters (non-vacuity, calibration)
     mc::count(if k == 2 { "fit_two_classes" } else { "fit_three_or_more_classes" });
     if k == 4 {
@@ -556,8 +737,7 @@ pub fn fit_case(c: &Case) {
     if verdict.train_correct == n {
         mc::count("layout_linearly_separable(training accuracy 100%)");
     }
-    let overlapping = (0..n).any(|i| (0..i).any(|j| x[i] == x[j] && yi[i] != yi[j]));
-    if overlapping {
+    if overlapping_rows(&x, &yi) {
         mc::count("layout_overlapping(same x, different labels)");
     }
     mc::count_n("predictions_checked", verdict.checked as u64);
@@ -577,6 +757,7 @@ pub fn fit_case(c: &Case) {
         json!({"op": "LogisticRegression.fit+predict", "family": c.family, "x": x, "y": y, "classes": classes, "alpha": c.alpha, "map": [c.map.0, c.map.1],
                "parameters_rows=[w..,intercept]": libw, "association_used": ps[used], "objective_at_zero": verdict.f0, "objective_at_result": verdict.f_final,
                "grad_inf_at_zero": verdict.g0, "grad_inf_at_result": verdict.g_final, "ratio": verdict.ratio,
-               "queries": xq, "predictions": pred, "predictions_checked": verdict.checked, "near_ties_skipped": verdict.ties})
+               "queries": xq, "predictions": pred, "predictions_checked": verdict.checked, "near_ties_skipped": verdict.ties,
+               "saturation_diagnostics": sat.as_ref().map(|d| format!("{:?}", d))})
     });
 }
